@@ -305,13 +305,14 @@ func (h *h3run) writerResponse(r *u.Rng, i int) {
 	if r.Chance(1, 6) {
 		trailerVals[http.TrailerPrefix+"X-Late"] = []string{"v"}
 	}
-	detail := fmt.Sprintf("response status=%d body=%d header=%q trailers=%q", status, len(body), hdr, trailerVals)
+	early := r.Bool()
+	detail := fmt.Sprintf("response status=%d body=%d header=%q trailers=%q trailers-set-before-WriteHeader=%v", status, len(body), hdr, trailerVals, early)
 	defer func() {
 		if p := recover(); p != nil {
 			h.monfail("h3writers/panic", fmt.Sprint(p), detail)
 		}
 	}()
-	fs, tfs, err := http3.VerifEncodeResponse(status, hdr, body, trailerVals)
+	fs, tfs, err := http3.VerifEncodeResponse(status, hdr, body, trailerVals, early)
 	if err != nil {
 		h.dist["response:writer-error"]++
 		h.monfail("h3writers/response-undecodable", err.Error(), detail)
